@@ -887,3 +887,23 @@ def raise_conditions(f) -> list[tuple[ast.Raise, list[tuple[ast.expr, bool]]]]:
         if isinstance(r, ast.Raise):
             out.append((r, [canon_test(t, pol) for t, pol in enclosing_tests(r, rejections=True)]))
     return out
+
+
+def branch_blocks(iff: ast.If) -> tuple[list[ast.stmt], list[ast.stmt]]:
+    """(statements run when the test holds, statements run when it does not), reading a guard
+    clause like the equivalent if/else: after ``if c: <always exits>`` the following statements of
+    the same block ARE the else branch."""
+    body, orelse = list(iff.body), list(iff.orelse)
+    par = parent(iff)
+    following: list[ast.stmt] = []
+    if par is not None:
+        for fld in ("body", "orelse", "finalbody"):
+            lst = getattr(par, fld, None)
+            if isinstance(lst, list) and any(x is iff for x in lst):
+                idx = next(i for i, x in enumerate(lst) if x is iff)
+                following = list(lst[idx + 1 :])
+    if not orelse and always_exits(body):
+        return body, following
+    if orelse and always_exits(orelse) and not always_exits(body):
+        return body + following, orelse
+    return body, orelse
